@@ -619,7 +619,7 @@ impl Modelled for Chain {
         }
     }
     fn heap_payload(&self) -> usize {
-        self.0.as_ref().map_or(0, |b| size_of::<Chain>() + b.heap_payload())
+        self.0.as_ref().map_or(0, |b| b.heap_payload())
     }
 }
 
